@@ -33,7 +33,7 @@ def gen_rules(rng, n_names, chain=False):
 
 def run(ctx, rep):
     scs = []
-    N = ctx.n(250, 8000)
+    N = ctx.n(250, 2000)
     creds_list = [{'roles': s} for s in gen.subsets(ROLES)]
     for k in range(N):
         chain = ctx.rng.random() < 0.2
